@@ -9,6 +9,8 @@
 import BufrModel.Lang.Script
 import BufrModel.Gen.PyScript
 import BufrModel.Lemmas.ScriptSrc
+import BufrModel.Gen.PyUtils
+import BufrModel.Lemmas.FlattenSrc
 set_option linter.unusedSimpArgs false
 namespace Bufr.Script
 open PyGen.script PyGen.script.process_embedded_query_expr
@@ -39,5 +41,26 @@ theorem C18_src_const_quote_states : stTag .sq = ['\''] ∧ stTag .dq = ['"'] :=
 theorem C18_src_const_nest_levels :
     DATA_VALUES_NEST_LEVEL_0 = 0 ∧ DATA_VALUES_NEST_LEVEL_1 = (defaultLevel : Int) ∧ DATA_VALUES_NEST_LEVEL_2 = 2 ∧
     3 ≤ DATA_VALUES_NEST_LEVEL_4 := by decide
+
+/-- `utils.flatten_list` translated from the source (a `for` loop over a nested list, `isinstance(entry, list)`,
+    recursion; the first argument of the translation is the fuel of the recursion).  For EVERY nested list `ts`
+    and every fuel above its nesting depth the function returns normally and gives the model's `flattenList`
+    (on which `allValuesFlat` and the nest levels 0, 1, 2 rest) of the corresponding model value. -/
+theorem C18_src_flatten_list (ts : List (Py.Tree Py.Obj)) (fuel : Nat) (h : depths (toVals ts) < fuel) :
+    PyGen.utils.flatten_list fuel ts = .ok (flattenList (toVals ts)) := by
+  have := flatten_list_ok fuel (toVals ts) h
+  rwa [ofVals_toVals] at this
+
+/-- in particular the recursion ends: some fuel suffices for every input, and every larger fuel gives the same -/
+theorem C18_src_flatten_list_exists_fuel (ts : List (Py.Tree Py.Obj)) :
+    ∃ n, ∀ fuel, n ≤ fuel → PyGen.utils.flatten_list fuel ts = .ok (flattenList (toVals ts)) :=
+  ⟨depths (toVals ts) + 1, fun fuel h => C18_src_flatten_list ts fuel (by omega)⟩
+
+/-- and stated from the model's side: every nested value of the model is such an input -/
+theorem C18_src_flatten_list_model (vs : List (Val Py.Obj)) (fuel : Nat) (h : depths vs < fuel) :
+    PyGen.utils.flatten_list fuel (ofVals vs) = .ok (flattenList vs) := flatten_list_ok fuel vs h
+
+example : ∃ (ts : List (Py.Tree Py.Obj)) (fuel : Nat), ts ≠ [] ∧ depths (toVals ts) < fuel :=
+  ⟨[.leaf {}, .list [.leaf {}, .list []]], 3, by simp, by decide⟩
 
 end Bufr.Script
